@@ -579,6 +579,7 @@ class KMeansL1L2(KMeans):
             copy=self.copy_x,
         )
         # verify that the number of samples given is larger than k
+        self.n_features_in_ = X.shape[1]
         if _num_samples(X) < self.n_clusters:
             raise ValueError(  # pragma no cover
                 "n_samples=%d should be >= n_clusters=%d"
